@@ -1,4 +1,5 @@
 import Clover.Spec.Spec
+import Clover.Proofs.RefineBulkAny
 /-! # C03 — bulk update/delete touch exactly the matched documents, once each -/
 namespace CV.Props.C03
 open CV CV.Spec
@@ -46,5 +47,57 @@ theorem applyAll_frame (u : Upd) : (docs : List (Bytes × Doc)) → (sel : List 
         · simp at h
         · rw [applyAll_frame u _ ds docs' h id hrest, lookup_insert]
           simp [Ne.symm hid]
+
+end CV.Props.C03
+
+namespace CV.Props.C03
+open CV
+
+variable (likeFn : LikeFn) (fnFam : FnFam)
+
+/-- **The apply phase of every bulk write** (Update, UpdateFunc, Delete, DropCollection), for every
+    collection size, index set and updater: started on a store holding the documents `docs`, given
+    ANY selection of live documents with distinct ids, it runs the updater on each selected document
+    exactly once, on its pre-call value, and leaves a store holding exactly
+    `Spec.applyAll u docs sel` — the selected documents replaced or removed, their index entries
+    moved, every other key untouched; or it fails with the specification's error. -/
+theorem apply_phase_exact (c : Bytes) (hc : Keys.Clean c) (idxs : List Bytes) (u : Upd)
+    (sel : List Doc) (docs : List (Bytes × Doc)) (n : Nat) (ctx : Ctx)
+    (hs : KSorted ctx.work) (hd : DataRep c idxs docs ctx.work) (hso : Spec.KeysSorted docs) (hid : IdsWF docs)
+    (hl : Live docs sel) :
+    match Spec.applyAll u docs sel with
+    | .ok docs' => ∃ c', (applyLoop c idxs u n sel) noFault ctx = (.ok (n + delCount u sel), c') ∧
+        ApplyPost c idxs docs ctx docs' (delCount u sel) c'
+    | .err e => ∃ c', (applyLoop c idxs u n sel) noFault ctx = (.err e, c') :=
+  applyLoop_run c hc idxs u sel docs n ctx hs hd hso hid hl
+
+/-- **Update / UpdateFunc refine the specification** whenever the plan is a full scan (in particular
+    on every collection without indexes, and for every query without criteria and sort): the
+    documents handed to the updater are exactly `FindAll(q)` immediately before the call, in that
+    order, and the new store represents the specification's new state. -/
+theorem update_exact (s : Spec.State) (σ : KVS) (hw : WF s) (hr : Rep s σ) (q : Query) (u : Upd)
+    (coll : Spec.Coll) (hl : Spec.lookup q.coll s = some coll) (hplan : choosePlan coll.indexes q = (.full, false)) :
+    let r := withTx true (Op.body likeFn fnFam (.update q u)) noFault σ
+    let sp := Spec.step likeFn fnFam s (.update q u)
+    r.1 = sp.1 ∧ Rep sp.2 r.2.1 ∧ WF sp.2 := update_refines_fullscan likeFn fnFam s σ hw hr q u coll hl hplan
+
+theorem delete_exact (s : Spec.State) (σ : KVS) (hw : WF s) (hr : Rep s σ) (q : Query)
+    (coll : Spec.Coll) (hl : Spec.lookup q.coll s = some coll) (hplan : choosePlan coll.indexes q = (.full, false)) :
+    let r := withTx true (Op.body likeFn fnFam (.delete q)) noFault σ
+    let sp := Spec.step likeFn fnFam s (.delete q)
+    r.1 = sp.1 ∧ Rep sp.2 r.2.1 ∧ WF sp.2 := delete_refines_fullscan likeFn fnFam s σ hw hr q coll hl hplan
+
+/-- **Whatever plan is chosen** (index range, index order, full scan; forward or reverse), the
+    selection a bulk write applies is a list of live documents of the collection, each at most once
+    — so no document is rewritten twice and none outside the collection is touched. -/
+theorem selection_is_live_any_plan (s : Spec.State) (w : KVS) (hw : WF s) (hr : Rep s w) (q : Query)
+    (coll : Spec.Coll) (hl : Spec.lookup q.coll s = some coll) :
+    Live coll.docs (selectionOf likeFn fnFam w q coll) := selectionOf_live likeFn fnFam s w hw hr q coll hl
+
+/-- **DropCollection removes every document** (and every index entry and the catalog record). -/
+theorem dropCollection_removes_all (s : Spec.State) (σ : KVS) (hw : WF s) (hr : Rep s σ) (c : Bytes) :
+    let r := withTx true (Op.body likeFn fnFam (.dropCollection c)) noFault σ
+    let sp := Spec.step likeFn fnFam s (.dropCollection c)
+    r.1 = sp.1 ∧ Rep sp.2 r.2.1 ∧ WF sp.2 := dropCollection_refines likeFn fnFam s σ hw hr c
 
 end CV.Props.C03
